@@ -197,15 +197,31 @@ def import_verdicts(prog, rep, dep_pid, rules, as_rule, why):
     findings) is lifted into this report under `as_rule`.  The sub-run is cached on the Program object."""
     import importlib
     cache = prog.__dict__.setdefault("_subreports", {})
+    busy = prog.__dict__.setdefault("_subreports_busy", [])
+    partial = prog.__dict__.setdefault("_subreports_partial", set())
+    if rep.pid not in busy:
+        busy.append(rep.pid)
+    if dep_pid in busy:
+        # mutual dependency (C05 <- C11 <- C05): the check at the other end of the cycle is the one that is running and decides these
+        # rules itself; nothing to lift here
+        partial.add(rep.pid)
+        rep.rule(as_rule, "%s (rules %s of %s: decided by the importing run of %s itself, mutual dependency)" % (why, ", ".join(rules), dep_pid, dep_pid))
+        return
     if dep_pid not in cache:
         sub = Report(dep_pid, rep.tier, rep.seed)
         err = None
+        busy.append(dep_pid)
         try:
             importlib.import_module("odmlsa.checks.%s" % dep_pid.lower()).run(prog, sub)
         except Exception as exc:           # the dependency stopped early: what it established so far still counts
             err = exc
-        cache[dep_pid] = (sub, err)
-    sub, err = cache[dep_pid]
+        finally:
+            busy.remove(dep_pid)
+        if dep_pid not in partial:
+            cache[dep_pid] = (sub, err)      # a sub-run that left out its part of a cycle is not reused by other importers
+        partial.discard(dep_pid)
+    else:
+        sub, err = cache[dep_pid]
     rep.rule(as_rule, "%s (rules %s of %s, run on the same tree; recorded findings of %s are not repeated here)" % (why, ", ".join(rules), dep_pid, dep_pid))
     lifted = 0
     for i in sub.items:
